@@ -34,7 +34,7 @@ UNIT = dict(
         dict(kind="model", file="plan_model.rs"),
         dict(kind="region", file=WR, within="impl Walrus / fn batch_read_for_topic",
              start="// 2) Build read plan up to byte and entry limits", end="if plan.is_empty() {",
-             sig="fn batch_read_plan(chain: &Vec<Block>, cur_idx_in: usize, cur_off_in: u64, tail_block_id: u64, tail_offset: u64, info_guard: &Option<ColGuard>, initial_trim_in: usize, first_end_hint_in: u64, max_bytes: usize, start_offset: Option<u64>, writer_snapshot: Option<(Block, u64)>, globals: &mut Globals) -> (ret: %s)" % OUTS,
+             sig="fn batch_read_plan(chain: &Vec<Block>, cur_idx_in: usize, cur_off_in: u64, tail_block_id: u64, tail_offset: u64, info_guard: &Option<ColGuard>, initial_trim_in: usize, first_end_hint_in: u64, max_bytes: usize, start_offset: Option<u64>, checkpoint: bool, writer_snapshot: Option<(Block, u64)>, globals: &mut Globals) -> (ret: %s)" % OUTS,
              pre="let mut cur_idx = cur_idx_in; let mut cur_off = cur_off_in; let mut initial_trim = initial_trim_in; let mut first_end_hint = first_end_hint_in;\n",
              post="(plan, initial_trim, cur_idx)",
              rules=PLAN_RULES,
